@@ -9,7 +9,9 @@ RULE = (
     "history scenarios (project + 2-5 edit phases incl. deliberately broken ones, restart builds, "
     "seeded schedules, injected step kills/drains/interrupts); the monitor sees the persistent "
     "tables inside every committing transaction. Distinct = distinct scenario rendering + fault "
-    "plan; non-trivial = at least two commands ran."
+    "plan; non-trivial = at least two commands ran. One scenario in three is the declaration-race "
+    "workload of C08/C15 instead (2-4 concurrent sub-plans issuing valid, conflicting, cyclic and "
+    "repeated declarations, client deaths), judged by the same invariant monitor."
 )
 ASSUMPTIONS = [
     "RUNNING => no stored hash and CHECKING => stored hash are inferred from the dispatch rule, kept because the soak confirms them",
@@ -18,9 +20,28 @@ ASSUMPTIONS = [
 
 
 def gen_scenario(seed, tier="quick", opts=None):
+    if seed % 3 == 0:
+        # the declaration-race workload of C08/C15: concurrent sub-plans issue valid and invalid
+        # requests (collisions, cycles, repeated declarations) over a small universe of paths
+        from checks import _decl
+
+        sc = _decl.gen_decl_scenario(seed, tier, faults=("client_death",))
+        sc["check"] = PROPERTY
+        sc["workload"] = "decl"
+        return sc
     sc = _mon.gen_monitored(seed, tier, opts, fault_kinds=("kill_step", "drain", "interrupt", "edit_input_during"))
     sc["check"] = PROPERTY
     return sc
+
+
+def _decl_extra(sc, uni, results, res, mons):
+    for r in results:
+        if r.exception is not None:
+            res.violate("R-inv/serve-exception", "serve-exception",
+                        f"serve() raised {type(r.exception).__name__}: {r.exception}", f"serve:{type(r.exception).__name__}")
+        for name, level, msg in r.error_records:
+            if name.startswith("stepup") and ("onsisten" in msg or "IntegrityError" in msg):
+                res.violate("R-inv/error-log", "consistency-error-logged", f"{name}: {msg[:500]}", "error-log")
 
 
 def _extra(sc, run, res, mons, inj):
@@ -38,8 +59,19 @@ def _extra(sc, run, res, mons, inj):
 
 
 def run_scenario(sc):
+    if sc.get("workload") == "decl":
+        from checks import _decl
+        from sim import monitors as M
+
+        return _decl.run_decl(sc, (M.InvariantMonitor, M.ErrorClassMonitor), extra=_decl_extra)
     run, res = _mon.run_monitored(sc, PROPERTY, _extra)
     return res
 
 
-shrink = _mon.shrink
+def shrink(sc):
+    if sc.get("workload") == "decl":
+        from checks import _decl
+
+        yield from _decl.shrink_decl(sc)
+    else:
+        yield from _mon.shrink(sc)
